@@ -22,15 +22,20 @@ theorem cpow_neg_half' (x : ℂ) : x ^ ((-1:ℂ)/2) = (x ^ ((1:ℂ)/2))⁻¹ := 
   rw [show ((-1:ℂ)/2) = -((1:ℂ)/2) by ring, Complex.cpow_neg]
 
 /-- unfold the evaluator on a concrete term -/
-macro "unfold_eval" : tactic => `(tactic| simp only [evalC, E.eval, opsC])
+macro "unfold_eval" : tactic => `(tactic| simp only [evalC, E.eval, opsC, Nat.cast_one, Complex.cpow_neg_one, Complex.cpow_one])
 
 /-- undo sympy's automatic rewrites (`1/xⁿ → x⁻ⁿ`, `1/I → −I`, …) -/
-macro "norm1" : tactic => `(tactic| simp only [Complex.inv_I, inv_inv, Complex.cpow_neg, cpow_neg_half, cpow_neg_half', neg_mul, mul_neg, one_div, neg_neg])
+macro "norm1" : tactic => `(tactic| simp only [Complex.inv_I, inv_inv, Complex.cpow_neg_one, Complex.cpow_one, Complex.cpow_neg, cpow_neg_half, cpow_neg_half', neg_mul, mul_neg, one_div, neg_neg])
 
 macro "elem_tac" : tactic => `(tactic| first
   | rfl
   | (ring_nf; done)
+  | (norm1; done)
   | (norm1; ring_nf; done)
+  | (ring_nf; norm1; done)
   | (ring_nf; norm1; ring_nf; done)
   | (ring_nf; norm1; field_simp; ring_nf; done)
   | (norm1; field_simp; ring_nf; done))
+
+/-- the proof script for one generated pair of terms -/
+macro "kernel_tac" : tactic => `(tactic| first | rfl | (unfold_eval; done) | (unfold_eval; elem_tac))
